@@ -64,6 +64,14 @@ def rule_except_discipline(repo: Repo) -> List[Ob]:
                     obs.append(Ob("E-except", key, f.relpath, h.lineno, f.qualname, True, "the handler re-raises (possibly as the project's own exception) on every path"))
                     continue
                 alt_calls = {call_name(c0) for c0 in ast.walk(h) if isinstance(c0, ast.Call)}
+                # the alternative may be computed after the try statement (handler: `if cannot: raise`, then fall through)
+                from ..model import parent as _parent
+                owner = _parent(t)
+                for fld in ("body", "orelse", "finalbody"):
+                    blk = getattr(owner, fld, None)
+                    if isinstance(blk, list) and any(x is t for x in blk):
+                        for later in blk[blk.index(t) + 1:]:
+                            alt_calls |= {call_name(c0) for c0 in ast.walk(later) if isinstance(c0, ast.Call)}
                 reason = next((why for (rp0, callee), why in REVIEWED_FALLBACKS.items() if rp0 == f.relpath and callee in alt_calls), None)
                 # a handler that raises on some path and otherwise computes an alternative for the value of the try body
                 has_raise = any(isinstance(n, ast.Raise) for n in ast.walk(h))
